@@ -156,4 +156,69 @@ def contours(eq, mesh, spec):
     return out
 
 
-EXTRACTORS = {"contours": contours, "profiles": profiles, "fieldpts": fieldpts, "beta": beta, "bpsign": bpsign, "eqinfo": eqinfo, "regions": regions, "meshmeta": meshmeta}
+def onsurface(eq, mesh, spec):
+    """psi of the equilibrium's interpolant at every written position array (cropped exactly as writeGridfile crops them), the
+    regions' radial psi grids and which region corners are pinned to an X-point; also the per-point refinement log if enabled"""
+    out = {"psi": {}, "pos": {}, "regions": {}}
+    locs = {"": "centre", "_xlow": "xlow", "_ylow": "ylow", "_corners": "corners", "_lower_right_corners": "lower_right_corners",
+            "_upper_right_corners": "upper_right_corners", "_upper_left_corners": "upper_left_corners"}
+    nx, ny = mesh.nx, mesh.ny
+    for suf, loc in locs.items():
+        R = np.array(getattr(mesh.Rxy, loc))[:nx, :ny]
+        Z = np.array(getattr(mesh.Zxy, loc))[:nx, :ny]
+        out["pos"][suf] = (R, Z)
+        out["psi"][suf] = np.array(eq.psi(R, Z))
+    for rid, r in mesh.regions.items():
+        er = r.equilibriumRegion
+        sl = mesh.region_indices[rid]
+        out["regions"][rid] = {
+            "name": r.name, "slice": (sl[0], sl[1]), "psi_vals": np.array(r.psi_vals, dtype=float), "radialIndex": r.radialIndex,
+            "pinned": {"ll": er.xPointsAtStart[r.radialIndex] is not None, "lr": er.xPointsAtStart[r.radialIndex + 1] is not None,
+                       "ul": er.xPointsAtEnd[r.radialIndex] is not None, "ur": er.xPointsAtEnd[r.radialIndex + 1] is not None},
+            "contour_psival": [float(c.psival) for c in r.contours],
+            "contour_err": [float(max(abs(float(eq.psi(p.R, p.Z)) - c.psival) for p in c)) for c in r.contours],
+        }
+    out["refine_atol"] = float(eq.user_options.refine_atol)
+    out["xpoints"] = [(float(p.R), float(p.Z)) for p in getattr(eq, "x_points", [])]
+    return out
+
+
+def perp(eq, mesh, spec):
+    """orthogonal grids: distance of every contour point from an independent tight-tolerance integration of
+    dr/dpsi = grad(psi)/|grad(psi)|^2 from the skeleton (separatrix) point with the same poloidal index"""
+    from scipy.integrate import solve_ivp
+
+    def rhs(t, x):
+        return [float(eq.f_R(x[0], x[1])), float(eq.f_Z(x[0], x[1]))]
+
+    out = {}
+    for rid, r in mesh.regions.items():
+        er = r.equilibriumRegion
+        sk = [(float(p.R), float(p.Z)) for p in er]
+        ncont, npts = len(r.contours), len(sk)
+        dist = np.full((ncont, npts), np.nan)
+        for j, p0 in enumerate(sk):
+            psi0 = float(eq.psi(*p0))
+            for i in range(ncont):
+                target = float(r.psi_vals[i])
+                q = r.contours[i][j] if j < len(r.contours[i]) else None
+                if q is None:
+                    continue
+                if target == psi0:
+                    end = p0
+                else:
+                    sol = solve_ivp(rhs, (psi0, target), p0, rtol=1e-11, atol=1e-13, method="DOP853")
+                    if not sol.success:
+                        continue
+                    end = sol.y[:, -1]
+                dist[i, j] = float(np.hypot(q.R - end[0], q.Z - end[1]))
+        out[rid] = {"name": r.name, "dist": dist, "radialIndex": r.radialIndex, "lengths": [len(c) for c in r.contours], "nskel": npts,
+                    "pinned": {"ll": er.xPointsAtStart[r.radialIndex] is not None, "lr": er.xPointsAtStart[r.radialIndex + 1] is not None,
+                               "ul": er.xPointsAtEnd[r.radialIndex] is not None, "ur": er.xPointsAtEnd[r.radialIndex + 1] is not None},
+                    "dpsi": float(np.min(np.abs(np.diff(r.psi_vals)))),
+                    "spacing": float(np.median([np.hypot(r.contours[i + 1][j].R - r.contours[i][j].R, r.contours[i + 1][j].Z - r.contours[i][j].Z)
+                                                for i in range(ncont - 1) for j in range(0, npts, 3)]))}
+    return out
+
+
+EXTRACTORS = {"perp": perp, "onsurface": onsurface, "contours": contours, "profiles": profiles, "fieldpts": fieldpts, "beta": beta, "bpsign": bpsign, "eqinfo": eqinfo, "regions": regions, "meshmeta": meshmeta}
